@@ -82,27 +82,24 @@ VerifyZones(s, ev) ==
     LET acc == Accepted(s, ev.sub) IN VerifyLenient(s, ev.sub, acc, FileEnts(s, ev.sub, acc))
 
 (* ---------------- single-path lookups (C02) ---------------------------- *)
-RECURSIVE AccUp(_, _, _, _)
-AccUp(s, path, acc, fuel) ==      \* non-recursive loading: Manifests in ancestors of path only
-    IF fuel = 0 THEN acc
-    ELSE LET cand == { f \in MfPaths(s) \ acc :
-                         \E mp \in acc : \E e \in Ents(MfAt(s, mp)) :
-                            /\ e.tag = "MANIFEST" /\ ~e.odd
-                            /\ Full(MfAt(s, mp), e) = f
-                            /\ IsPfx(Dir(f), path)
-                            /\ FileStrict(s, f, e) }
-         IN IF cand = {} THEN acc ELSE AccUp(s, path, acc \cup cand, fuel - 1)
+(* Loading for one path proceeds in rounds (load_manifests_for_path): every MANIFEST entry, in a  *)
+(* Manifest loaded so far, that names a not yet loaded Manifest in an ancestor directory of the    *)
+(* path schedules it, and it is checked against EVERY such entry of this round; one mismatch       *)
+(* raises.  (An entry in a Manifest loaded in a later round than its target is not looked at.)     *)
+RECURSIVE UpRounds(_, _, _, _)
+UpRounds(s, path, acc, fuel) ==      \* -> [acc, broken]
+    LET refs == { x \in UNION { { <<Full(MfAt(s, mp), e), e>> :
+                                    e \in { y \in Ents(MfAt(s, mp)) : y.tag = "MANIFEST" /\ ~y.odd } }
+                                : mp \in acc \cap MfPaths(s) } :
+                    x[1] \notin acc /\ IsPfx(Dir(x[1]), path) }
+        bad  == { x \in refs : ~FileStrict(s, x[1], x[2]) }
+    IN IF bad # {} THEN [acc |-> acc, broken |-> TRUE]
+       ELSE IF refs = {} \/ fuel = 0 THEN [acc |-> acc, broken |-> FALSE]
+       ELSE UpRounds(s, path, acc \cup { x[1] : x \in refs }, fuel - 1)
 
-AcceptedUp(s, path) ==
-    IF s.top \in MfPaths(s) THEN AccUp(s, path, {s.top}, Cardinality(MfSet(s))) ELSE {}
-
-ChainBrokenUp(s, path, acc) ==
-    \E mp \in acc : \E e \in Ents(MfAt(s, mp)) :
-        /\ e.tag = "MANIFEST" /\ ~e.odd
-        /\ IsPfx(Dir(Full(MfAt(s, mp), e)), path)
-        /\ Full(MfAt(s, mp), e) # mp
-        /\ Full(MfAt(s, mp), e) \notin acc
-        /\ ~FileStrict(s, Full(MfAt(s, mp), e), e)
+UpResult(s, path) ==
+    IF s.top \in MfPaths(s) THEN UpRounds(s, path, {s.top}, Cardinality(MfSet(s)) + 1)
+    ELSE [acc |-> {}, broken |-> TRUE]
 
 (* entries that may answer a path lookup *)
 PathCands(s, path, acc) ==
@@ -120,8 +117,9 @@ SameEntry(r, full, e) ==
 LookupClauses(s, ev) ==
     LET path == ev.sub
         lpath == IF ev.api = "find_dist_entry" THEN ev.sub \o <<"">> ELSE ev.sub
-        acc  == AcceptedUp(s, lpath)
-        broken == acc = {} \/ ~AllParsable(s, acc) \/ ChainBrokenUp(s, lpath, acc)
+        up   == UpResult(s, lpath)
+        acc  == up.acc
+        broken == acc = {} \/ up.broken \/ ~AllParsable(s, acc)
         cands == PathCands(s, path, acc)
     IN IF OddPaths(s) THEN {}
        ELSE IF broken THEN
